@@ -923,19 +923,34 @@ def replay_c10(env, rec):
 
 # =========================================================================== C12
 def check_c12(rep):
-    rep.statement = ('handle_input: for every combination of the 16 Boolean CLI fields and both (positive) thresholds the builder '
+    rep.statement = ('(1) obtain_input (bin crate MIR, process environment = symbolic stubs constrained by their contracts) returns exactly the '
+                     'test cases the user supplied on every channel: arguments; "-" with piped stdin (the lines BufRead::lines delivers, untouched); '
+                     '-f FILE with LF or CRLF line endings, with or without a final line ending; a failing read ends in Err -- for 2 (3) lines of '
+                     '2 arbitrary code points. (2) handle_input: for every combination of the 16 Boolean CLI fields and both (positive) thresholds the builder '
                      'that reaches build() carries exactly the documented settings (each flag <-> its config field; start anchor '
                      'disabled iff --no-start-anchor or --no-anchors, same for end; surrogates iff --escape and --with-surrogates; '
                      'thresholds copied; build() called exactly once); no panic for input vectors of length 0, 1, 2 -- an empty '
                      'list and every io::ErrorKind end in Err, never in a panic.')
-    rep.outside = ['the four input channels, LF/CRLF, final newline, from_file (I/O and process behaviour are not encodable)',
+    rep.outside = ['the library\'s from_file, the "-f -" channel (file name on stdin), invalid UTF-8 input, the operating system itself',
                    'clap\'s own parsing and value parsers', 'that the printed line is the library\'s result (build and print are stubbed)',
                    'input vectors longer than 2 (a symbolic length did not finish, DESIGN 3)']
     rep.assumptions += ['stubs: RegExpBuilder::build records verif_hooks::config_bits and returns an empty string; std::io::_print '
                         'is empty; alloc::fmt::format is empty in the error-kind harness only',
                         'thresholds >= 1 as clap\'s value parser guarantees']
-    env = Env(rep, need_mir=False, need_native=False)
+    env = Env(rep, need_mir=True, need_native=True)
     known, _ = load_known()
+    # input acquisition on every channel: obtain_input from the bin crate's MIR with the process environment as symbolic stubs
+    from mirsym.mir import Mir
+    bin_text, bi = prep.mir_dump('bin')
+    rep.info['bin_mir_lines'] = bi['mir_lines']
+    env.ctx.bin_mir = Mir(bin_text, prep.repo())
+    for ch in ('args', 'stdin', 'file-lf', 'file-crlf', 'file-lf-final', 'file-crlf-final', 'file-missing'):
+        o = ob_add(rep, Q.q12i(env.ctx, ch, 2, 2) if rep.tier == 'quick' else Q.q12i(env.ctx, ch, 3, 2))
+        if o.result != 'sat':
+            continue
+        for m in o.verdict.models:
+            bad, key, what, record = replay_channel(env, ch, m)
+            classify(rep, known, 'Q12i', key, what, record, bad)
     hs = [('h12m_flag_mapping', 'cli', 1200, 16_000_000), ('h12p0_no_test_cases_is_an_error_not_a_panic', 'cli', 1200, 16_000_000),
           ('h12p2_two_test_cases', 'cli', 1200, 16_000_000), ('h12e_input_errors_become_err', 'cli', 1200, 16_000_000)]
     # one target dir for the bin crate (clap is compiled once); harnesses run one after the other in it
@@ -957,6 +972,48 @@ def check_c12(rep):
         repro, key, what, record = replay_cli(name, vals, r)
         classify(rep, known, name.split('_')[0], key, what, record, repro)
     rep.trusted += ['Kani 0.68.0 / CBMC 6.11.0 / CaDiCaL on the compiled bin crate (clap 4.5 compiled under Kani)']
+
+
+def replay_channel(env, ch, m):
+    """run the real grex binary on the channel with the solver's input and compare with the library's build() of the same test cases"""
+    binp = prep.cli_build()
+    import tempfile
+
+    def lines_of(tag):
+        out, i = [], 0
+        while ('%s%d_0' % (tag, i)) in m or ('%s%d_1' % (tag, i)) in m:
+            l, j = [], 0
+            while ('%s%d_%d' % (tag, i, j)) in m:
+                l.append(m['%s%d_%d' % (tag, i, j)])
+                j += 1
+            out.append(l)
+            i += 1
+        return out
+    enc = lambda l: ''.join(map(chr, l)).encode('utf-8', 'surrogatepass')
+    if ch == 'stdin':
+        cases = lines_of('l')
+        raw = b''.join(enc(l) + b'\r\n' for l in cases)     # BufRead::lines strips "\n" and ONE preceding "\r": this delivers exactly the lines
+        p = subprocess.run([binp, '-'], input=raw, capture_output=True)
+    elif ch == 'args':
+        cases = lines_of('a')
+        if any(0 in l for l in cases):
+            return False, 'args=nul', 'an argument with a NUL character cannot be passed to a process', {}
+        p = subprocess.run([binp, '--'] + [enc(l).decode('utf-8', 'replace') for l in cases], capture_output=True, stdin=subprocess.DEVNULL)
+    else:
+        cases = lines_of('t')
+        sep = b'\r\n' if 'crlf' in ch else b'\n'
+        raw = sep.join(enc(l) for l in cases) + (sep if ch.endswith('final') else b'')
+        with tempfile.NamedTemporaryFile('wb', suffix='.txt', delete=False) as f:
+            f.write(raw)
+            path = f.name
+        p = subprocess.run([binp, '-f', path], capture_output=True, stdin=subprocess.DEVNULL)
+        os.unlink(path)
+    lib = env.eval([{'op': 'build', 'cases': cases, 'settings': {}}])
+    want = (''.join(map(chr, lib[0].get('ok') or [])) + '\n').encode('utf-8', 'surrogatepass')
+    bad = p.returncode != 0 or p.stdout != want
+    key = 'channel=%s,cases=%s' % (ch, '|'.join('+'.join(u(x) for x in l) for l in cases))
+    what = 'grex on channel %s with the test cases %s prints %r (exit %d); the library gives %r' % (ch, [''.join(map(chr, l)) for l in cases], p.stdout, p.returncode, want)
+    return bad, key, what, {'inputs': {'kind': 'channel', 'channel': ch, 'cases': cases}, 'observed': {'stdout': p.stdout.decode('utf-8', 'replace'), 'exit': p.returncode}}
 
 
 CLI_FIELDS = ['minrep', 'minlen', 'digits', 'non-digits', 'spaces', 'non-spaces', 'words', 'non-words', 'escape', 'with-surrogates',
@@ -1027,6 +1084,12 @@ def replay_cli(name, vals, r):
 def replay_c12(env, rec):
     binp = prep.cli_build()
     kind = rec['inputs']['kind']
+    if kind == 'channel':
+        ch, cases = rec['inputs']['channel'], rec['inputs']['cases']
+        tag = {'stdin': 'l', 'args': 'a'}.get(ch, 't')
+        m = {'%s%d_%d' % (tag, i, j): c for i, l in enumerate(cases) for j, c in enumerate(l)}
+        bad, _k, what, _r = replay_channel(env, ch, m)
+        return bad, what
     args = rec['inputs'].get('args', [])
     if kind == 'empty-file':
         import tempfile
@@ -1098,10 +1161,21 @@ def check_cluster(rep, clause):
         ob_add(rep, o)
         if o.result != 'sat':
             continue
+        dev_native = None
+        if o.classes_seen.get('arithmetic-panic-edge'):
+            # a feasible overflow edge: replay in the overflow-checked dev profile as well (the release profile wraps silently)
+            try:
+                dev_native, _dt = prep.native_build('dev')
+            except prep.PrepError:
+                dev_native = None
         for m in o.verdict.models:
             s_ = [m['g%d' % i] for i in range(n)]
             minrep, minlen = m['cfg_minimum_repetitions'], m['cfg_minimum_substring_length']
             bad, what, got = replay_cluster(env, s_, minrep, minlen, clause)
+            if not bad and dev_native:
+                dgot = prep.native_eval(dev_native, [{'op': 'cluster_repetitions', 's': s_, 'min_repetitions': minrep, 'min_substring_length': minlen}])
+                if 'panic' in dgot[0]:
+                    bad, what, got = True, what + '; the dev (overflow-checked) build panics: %s' % str(dgot[0]['panic'])[:100], dgot
             key = 's=%s,min_repetitions=%d,min_substring_length=%d' % (json.dumps(''.join(map(chr, s_))), minrep, minlen)
             classify(rep, known, o.qid, key, what, {'inputs': {'s': s_, 'min_repetitions': minrep, 'min_substring_length': minlen, 'clause': clause},
                                                     'observed': got}, bad)
@@ -1788,7 +1862,7 @@ def main(argv):
     if a.replay:
         rec = json.load(open(a.replay))
         rep = Report(a.prop, a.tier, seed)
-        env = Env(rep, need_mir=False, need_native=a.prop != 'C12')
+        env = Env(rep, need_mir=False, need_native=True)
         repro, what = REPLAYS[a.prop](env, rec)
         print('replay %s: %s -- %s' % (a.replay, 'REPRODUCES' if repro else 'does not reproduce', what))
         if repro:
